@@ -85,6 +85,7 @@ type UnsupportedErr struct{ Msg string }
 func (e UnsupportedErr) Error() string { return e.Msg }
 
 type FnGen struct {
+	inst map[string]int64 // instantiation constants (contract clause `instantiate`)
 	prog     *Prog
 	fn       *ssa.Function
 	fc       *FuncContract
